@@ -173,6 +173,13 @@ func (f *Factory) GetAnthropicSupport(endpointType string) *domain.AnthropicSupp
 	f.mu.RLock()
 	defer f.mu.RUnlock()
 
+	// An endpoint keeps the type its configuration spelled, and validation accepts every
+	// routing prefix of a profile (lmstudio, lm_studio, dmr, ...): resolve the spelling the
+	// same way ValidateProfileType does before looking the profile up by name.
+	if profileName, ok := f.prefixLookup[endpointType]; ok {
+		endpointType = profileName
+	}
+
 	profile, exists := f.loader.GetProfile(endpointType)
 	if !exists {
 		return nil
